@@ -214,6 +214,10 @@ func init() {
 		riSetup()
 		ri, err := router_info.NewRouterInfo(riIdent, time.Unix(s, n), nil, map[string]string{}, riKey, signature.SIGNATURE_TYPE_EDDSA_SHA512_ED25519)
 		if err != nil || ri == nil || ri.Published() == nil {
+			// the constructor rejects exactly the zero date ("undefined"); anything else is a harness problem
+			if s*1000+n/1000000 == 0 {
+				return "err", nil
+			}
 			return "err", []Fail{fail("HARNESS", "ri-build", "NewRouterInfo: %v", err)}
 		}
 		stored := dateU64(*ri.Published())
